@@ -274,6 +274,145 @@ def explicit_else_pass(tree):
     return _Elif().visit(tree)
 
 
+class _CondTemp(ast.NodeTransformer):
+    """if <test containing a call>:  ->  _cN = <test>; if _cN:   (statement-level ifs only, not elif arms)"""
+
+    def __init__(self):
+        self.n = 0
+
+    def _block(self, stmts):
+        out = []
+        for s in stmts:
+            if isinstance(s, ast.If) and any(isinstance(x, ast.Call) for x in ast.walk(s.test)) \
+                    and not any(isinstance(x, (ast.NamedExpr, ast.Yield, ast.Await)) for x in ast.walk(s.test)):
+                self.n += 1
+                name = '_c%d' % self.n
+                out.append(ast.Assign([ast.Name(name, ast.Store())], s.test, lineno=s.lineno))
+                s.test = ast.Name(name, ast.Load())
+            out.append(s)
+        return out
+
+    def generic_visit(self, node):
+        super().generic_visit(node)
+        for fld in ('body', 'orelse', 'finalbody'):
+            v = getattr(node, fld, None)
+            if isinstance(v, list) and v and isinstance(v[0], ast.stmt):
+                if fld == 'orelse' and isinstance(node, ast.If) and len(v) == 1 and isinstance(v[0], ast.If):
+                    continue        # an elif arm: its test must stay where it is
+                setattr(node, fld, self._block(v))
+        return node
+
+
+def condition_through_temp(tree):
+    return _CondTemp().visit(tree)
+
+
+class _ElseAfterReturn(ast.NodeTransformer):
+    """if c: <...; return/raise> else: B   ->   if c: <...; return/raise>; B"""
+
+    @staticmethod
+    def _leaves(stmts):
+        if not stmts:
+            return False
+        last = stmts[-1]
+        if isinstance(last, (ast.Return, ast.Raise, ast.Continue, ast.Break)):
+            return True
+        if isinstance(last, ast.If) and last.orelse:
+            return _ElseAfterReturn._leaves(last.body) and _ElseAfterReturn._leaves(last.orelse)
+        return False
+
+    def _block(self, stmts):
+        out = []
+        for s in stmts:
+            if isinstance(s, ast.If) and s.orelse and self._leaves(s.body):
+                rest = s.orelse
+                s.orelse = []
+                out.append(s)
+                out.extend(rest)
+            else:
+                out.append(s)
+        return out
+
+    def generic_visit(self, node):
+        super().generic_visit(node)
+        for fld in ('body', 'orelse', 'finalbody'):
+            v = getattr(node, fld, None)
+            if isinstance(v, list) and v and isinstance(v[0], ast.stmt):
+                setattr(node, fld, self._block(v))
+        return node
+
+
+def drop_else_after_return(tree):
+    return _ElseAfterReturn().visit(tree)
+
+
+class _CompToLoop(ast.NodeTransformer):
+    """v = [e for t in xs if c]  ->  v = []; for t in xs: if c: v.append(e)   (single generator, plain Name target of the
+    assignment, list comprehensions only, v not mentioned in the comprehension)"""
+
+    def _block(self, stmts):
+        out = []
+        for s in stmts:
+            if isinstance(s, ast.Assign) and len(s.targets) == 1 and isinstance(s.targets[0], ast.Name) \
+                    and isinstance(s.value, ast.ListComp) and len(s.value.generators) == 1 \
+                    and not s.value.generators[0].is_async \
+                    and not any(isinstance(x, ast.Name) and x.id == s.targets[0].id for x in ast.walk(s.value)):
+                v = s.targets[0].id
+                g = s.value.generators[0]
+                body: list = [ast.Expr(ast.Call(ast.Attribute(ast.Name(v, ast.Load()), 'append', ast.Load()), [s.value.elt], []))]
+                for c in reversed(g.ifs):
+                    body = [ast.If(c, body, [])]
+                out.append(ast.Assign([ast.Name(v, ast.Store())], ast.List([], ast.Load()), lineno=s.lineno))
+                out.append(ast.For(g.target, g.iter, body, [], lineno=s.lineno))
+            else:
+                out.append(s)
+        return out
+
+    def generic_visit(self, node):
+        super().generic_visit(node)
+        for fld in ('body', 'orelse', 'finalbody'):
+            v = getattr(node, fld, None)
+            if isinstance(v, list) and v and isinstance(v[0], ast.stmt):
+                setattr(node, fld, self._block(v))
+        return node
+
+
+def comprehension_to_loop(tree):
+    return _CompToLoop().visit(tree)
+
+
+def rename_private_params(tree: ast.Module) -> ast.Module:
+    """parameters (other than self/cls) of functions whose name starts with an underscore and is not a dunder or a
+    `_yatiml_*` hook get the suffix _p; keyword arguments at call sites of these functions follow"""
+    renamed = {}
+    for fn in _scopes(tree):
+        if not fn.name.startswith('_') or (fn.name.startswith('__') and fn.name.endswith('__')) or fn.name.startswith('_yatiml'):
+            continue
+        a = fn.args
+        ps = [x for x in a.posonlyargs + a.args + a.kwonlyargs if x.arg not in ('self', 'cls')]
+        names = {x.arg for x in ps}
+        if not names:
+            continue
+        nested = {n.id for n in _nested_nodes(fn) if isinstance(n, ast.Name)}
+        names -= nested
+        for x in ps:
+            if x.arg in names:
+                x.arg = x.arg + '_p'
+        for n in _own_nodes(fn):
+            if isinstance(n, ast.Name) and n.id in names:
+                n.id = n.id + '_p'
+        renamed.setdefault(fn.name, set()).update(names)
+    for n in ast.walk(tree):
+        if isinstance(n, ast.Call):
+            f = n.func
+            nm = f.attr if isinstance(f, ast.Attribute) else f.id if isinstance(f, ast.Name) else None
+            if nm in renamed:
+                for k in n.keywords:
+                    if k.arg in renamed[nm]:
+                        k.arg = k.arg + '_p'
+    return tree
+
+
 OPERATORS: Dict[str, Callable[[ast.Module], ast.Module]] = {
     'reformat': reformat,
     'rename_locals': rename_locals,
@@ -287,6 +426,10 @@ OPERATORS: Dict[str, Callable[[ast.Module], ast.Module]] = {
     'drop_logging': drop_logging,
     'split_isinstance': split_isinstance,
     'explicit_else_pass': explicit_else_pass,
+    'condition_through_temp': condition_through_temp,
+    'drop_else_after_return': drop_else_after_return,
+    'comprehension_to_loop': comprehension_to_loop,
+    'rename_private_params': rename_private_params,
 }
 
 
